@@ -325,6 +325,37 @@ func tieGraphs(r *Rng, st *Stats, cf *CoqFile, n int) {
 			}
 		}
 	}
+	// replay of the witness of Properties.treeshake_off_keeps_everything_refuted on
+	// the real bundler: with tree shaking OFF a pure, unused (single-part) module
+	// that is imported only for its side effects is still dropped
+	{
+		files := map[string]string{"m0.js": "import \"./m1.js\";\n$p(\"0:1\");\n", "m1.js": "export const unused = [1, 2];\nfunction alsoUnused() {}\n"}
+		dumps, outs, errText := linkWithDump(files, linkOpts{format: config.FormatESModule, treeShaking: false, entries: []string{"m0.js"}})
+		reproduced := false
+		if errText == "" && len(dumps) == 1 {
+			for _, f := range dumps[0].Files {
+				if f.Path == "m1.js" && f.IsLive {
+					for _, p := range f.Parts {
+						if p.NumStmts > 0 && !p.IsLive && p.CanBeRemovedIfUnused && !p.ForceTreeShaking {
+							reproduced = true
+						}
+					}
+				}
+			}
+			term, _ := dumpToCoq(dumps[0])
+			items = append(items, term)
+			st.Note("graph", "ts-off-witness", true)
+			for _, o := range outs {
+				if strings.Contains(string(o.Contents), "alsoUnused") {
+					reproduced = false
+				}
+			}
+		}
+		st.Extra["treeshake_off_keeps_everything_refuted_witness_reproduced_on_real_linker"] = reproduced
+		if reproduced {
+			st.Histogram["ts-off-drops-pure-part"]++
+		}
+	}
 	cf.AddCases("graph_cases", "list Z", "check_graph", items)
 }
 
@@ -413,6 +444,9 @@ type variant struct {
 	err    string
 	script int // index into the script batch, or -1
 	module int // index into the module batch, or -1
+
+	scriptText string
+	modulePath string
 }
 
 type glueCase struct {
@@ -534,10 +568,9 @@ func glue(r *Rng, st *Stats, n int) {
 		panic(err)
 	}
 	defer os.RemoveAll(root)
+	knownScenarioCJSOrder(root, st)
 	g := &mgen{r: r}
 	var cases []*glueCase
-	var scripts []string
-	var modules []string
 	for i := 0; i < nc; i++ {
 		g.caseNo = 1000 + i
 		g.annot = r.Chance(45)
@@ -562,8 +595,6 @@ func glue(r *Rng, st *Stats, n int) {
 		c.exports = len(mg.files[0].exports) > 0
 		c.global = c.format == api.FormatIIFE && c.exports
 		c.desc = fmt.Sprintf("format=%d minifySyntax=%v minifyIdentifiers=%v minifyWhitespace=%v pure=%v", c.format, c.minSyn, c.minIdent, minWS, mg.pureOpt)
-		c.native = len(modules)
-		modules = append(modules, filepath.Join(c.dir, "m0.js"))
 		names := []string{"off", "on"}
 		if mg.annotated {
 			names = append(names, "ign")
@@ -616,32 +647,60 @@ func glue(r *Rng, st *Stats, n int) {
 				if err := os.WriteFile(p, []byte(v.text), 0o644); err != nil {
 					panic(err)
 				}
-				v.module = len(modules)
-				modules = append(modules, p)
+				v.modulePath = p
 			case c.format == api.FormatCommonJS:
-				v.script = len(scripts)
-				scripts = append(scripts, exerciseScript+"var module = { exports: {} }, exports = module.exports;\n"+v.text+"\n;$exercise(module.exports);\n")
+				v.scriptText = exerciseScript + "var module = { exports: {} }, exports = module.exports;\n" + v.text + "\n;$exercise(module.exports);\n"
 			case c.global:
-				v.script = len(scripts)
-				scripts = append(scripts, exerciseScript+v.text+"\n;$exercise(G);\n")
+				v.scriptText = exerciseScript + v.text + "\n;$exercise(G);\n"
 			default:
-				v.script = len(scripts)
-				scripts = append(scripts, exerciseScript+v.text)
+				v.scriptText = exerciseScript + v.text
 			}
 		}
 		cases = append(cases, c)
 	}
-	sres, err := RunNodeScripts(scripts, 4000)
+	run := func(cs []*glueCase) ([]NodeResult, []NodeResult, error) {
+		// collect the scripts / modules of the given cases (indices are re-assigned)
+		var sc, mo []string
+		for _, c := range cs {
+			c.native = len(mo)
+			mo = append(mo, filepath.Join(c.dir, "m0.js"))
+			for _, v := range c.vars {
+				if v.scriptText != "" {
+					v.script = len(sc)
+					sc = append(sc, v.scriptText)
+				}
+				if v.modulePath != "" {
+					v.module = len(mo)
+					mo = append(mo, v.modulePath)
+				}
+			}
+		}
+		sres, err := RunNodeScripts(sc, 8000)
+		if err != nil {
+			return nil, nil, err
+		}
+		mres, err := runModules(root, mo)
+		return sres, mres, err
+	}
+	sres, mres, err := run(cases)
 	if err != nil {
 		st.Fail("node-oracle-unavailable", err.Error(), nil, nil)
 		return
 	}
-	mres, err := runModules(root, modules)
-	if err != nil {
-		st.Fail("node-oracle-unavailable", err.Error(), nil, nil)
-		return
+	type verdict struct {
+		what        string
+		input       interface{}
+		got, expect interface{}
 	}
-	for _, c := range cases {
+	inconclusive := func(r NodeResult) bool {
+		e := r.Err()
+		return e == "TIMEOUT" || strings.HasPrefix(e, "HARNESS:")
+	}
+	judge := func(c *glueCase, sres, mres []NodeResult, first bool) []verdict {
+		var out []verdict
+		fail := func(what string, input, got, expect interface{}) {
+			out = append(out, verdict{what, input, got, expect})
+		}
 		native := mres[c.native]
 		input := func(v *variant) map[string]interface{} {
 			m := map[string]interface{}{"modules": c.mg.Text(), "options": c.desc}
@@ -652,18 +711,22 @@ func glue(r *Rng, st *Stats, n int) {
 			return m
 		}
 		if native.Err() == "SyntaxError" {
-			st.Histogram["generator-invalid-program"]++
-			st.Extra["invalid-example"] = c.mg.Text() + native.Thrown
-			continue
+			if first {
+				st.Histogram["generator-invalid-program"]++
+				st.Extra["invalid-example"] = c.mg.Text() + native.Thrown
+			}
+			return nil
 		}
-		for k, cnt := range c.mg.kinds {
-			st.Histogram["glue:"+k] += cnt
+		if first {
+			for k, cnt := range c.mg.kinds {
+				st.Histogram["glue:"+k] += cnt
+			}
+			st.Note("glue", c.mg.Text()+c.desc, len(native.Log) >= 2)
 		}
-		st.Note("glue", c.mg.Text()+c.desc, len(native.Log) >= 2)
 		results := map[string]NodeResult{}
 		for _, v := range c.vars {
 			if v.err != "" {
-				st.Fail("valid-graph-rejected", input(v), v.err, "a bundle")
+				fail("valid-graph-rejected", input(v), v.err, "a bundle")
 				continue
 			}
 			var res NodeResult
@@ -672,10 +735,14 @@ func glue(r *Rng, st *Stats, n int) {
 			} else {
 				res = mres[v.module]
 			}
+			if inconclusive(res) || inconclusive(native) {
+				st.Histogram["node-timeout-inconclusive"]++
+				return out
+			}
 			results[v.name] = res
 			if !c.minIdent && !c.minSyn && v.name != "off" {
 				if bad := danglingNames(c.mg.FileMap(), v.text); len(bad) > 0 {
-					st.Fail("dangling-reference", input(v), bad, "every referenced input binding is still declared in the tree-shaken output")
+					fail("dangling-reference", input(v), bad, "every referenced input binding is still declared in the tree-shaken output")
 				}
 			}
 		}
@@ -683,11 +750,10 @@ func glue(r *Rng, st *Stats, n int) {
 		on, okOn := results["on"]
 		ign, okIgn := results["ign"]
 		if !okOff || !okOn {
-			continue
+			return out
 		}
 		// reference behaviour: native execution of the modules. Graphs with a
-		// CommonJS member are compared with the bundle built without tree
-		// shaking / with annotations ignored instead (esbuild evaluates wrapped
+		// CommonJS member are compared module by module (esbuild evaluates wrapped
 		// CommonJS modules lazily, a documented ordering difference that belongs
 		// to C02, not to tree shaking).
 		hasCJS, hasJSON := false, false
@@ -696,7 +762,6 @@ func glue(r *Rng, st *Stats, n int) {
 			hasJSON = hasJSON || f.json
 		}
 		if hasCJS {
-			// module-order-insensitive comparison: per-module projections of the logs
 			native, off, on, ign = byModule(native), byModule(off), byModule(on), byModule(ign)
 		}
 		if hasJSON {
@@ -710,16 +775,16 @@ func glue(r *Rng, st *Stats, n int) {
 		if !c.mg.annotated {
 			// no annotations: tree-shaken bundle == unshaken bundle == native execution
 			if !on.Same(off) {
-				st.Fail("treeshaking-changes-behaviour", input(c.vars[1]), on.String(), off.String())
+				fail("treeshaking-changes-behaviour", input(c.vars[1]), on.String(), off.String())
 			} else if !on.Same(native) {
-				st.Fail("bundle-differs-from-native", input(c.vars[1]), on.String(), native.String())
+				fail("bundle-differs-from-native", input(c.vars[1]), on.String(), native.String())
 			}
-			continue
+			return out
 		}
 		ref := native
 		if okIgn && !ign.Same(native) {
 			// with annotations ignored everything must be exact
-			st.Fail("treeshaking-changes-behaviour", input(c.vars[2]), ign.String(), native.String())
+			fail("treeshaking-changes-behaviour", input(c.vars[2]), ign.String(), native.String())
 		}
 		for _, pair := range []struct {
 			v   *variant
@@ -727,11 +792,73 @@ func glue(r *Rng, st *Stats, n int) {
 		}{{c.vars[1], on}, {c.vars[0], off}} {
 			// only annotated modules/calls may additionally disappear, nothing may be added or reordered
 			if pair.res.Err() != ref.Err() || !sameLines(filterLog(c.mg, pair.res.Log), filterLog(c.mg, ref.Log)) || !isSubsequence(pair.res.Log, ref.Log) {
-				st.Fail("unannotated-code-disappeared", input(pair.v), pair.res.String(), ref.String())
+				fail("unannotated-code-disappeared", input(pair.v), pair.res.String(), ref.String())
 			}
 		}
-		if len(st.Samples) < 6 {
+		if first && len(st.Samples) < 6 {
 			st.Sample(map[string]interface{}{"glue_options": c.desc, "modules": len(c.mg.files), "native_log_len": len(native.Log), "annotated": c.mg.annotated})
 		}
+		return out
+	}
+	// first pass; every failing case is executed a second time and reported
+	// only if it fails again (the oracle must not be noise)
+	var suspects []*glueCase
+	for _, c := range cases {
+		if len(judge(c, sres, mres, true)) > 0 {
+			suspects = append(suspects, c)
+		}
+	}
+	if len(suspects) == 0 {
+		return
+	}
+	st.Histogram["glue-rerun"] += len(suspects)
+	sres2, mres2, err := run(suspects)
+	if err != nil {
+		st.Fail("node-oracle-unavailable", err.Error(), nil, nil)
+		return
+	}
+	for _, c := range suspects {
+		for _, v := range judge(c, sres2, mres2, false) {
+			st.Fail(v.what, v.input, v.got, v.expect)
+		}
+	}
+}
+
+// Known finding C04-A (recorded in known_findings.d/C04.json): with
+// --tree-shaking=false the entry point is a single part, so its require of a
+// CommonJS module is emitted after the hoisted ES module imports: the bundle
+// built WITHOUT tree shaking evaluates "./b.js" before "./a.cjs", while native
+// execution and the tree-shaken bundle evaluate a.cjs first. The random stream
+// compares graphs with CommonJS members module by module for this reason.
+func knownScenarioCJSOrder(root string, st *Stats) {
+	dir := filepath.Join(root, "known-cjs-order")
+	files := map[string]string{
+		"m0.js": "import \"./a.cjs\";\nimport \"./b.js\";\n$p(\"m0\");\n",
+		"a.cjs": "$p(\"a (cjs)\");\n",
+		"b.js":  "$p(\"b (esm)\");\n",
+	}
+	os.MkdirAll(dir, 0o755)
+	for p, t := range files {
+		if err := os.WriteFile(filepath.Join(dir, p), []byte(t), 0o644); err != nil {
+			panic(err)
+		}
+	}
+	var progs []string
+	for _, ts := range []api.TreeShaking{api.TreeShakingTrue, api.TreeShakingFalse} {
+		res := api.Build(api.BuildOptions{AbsWorkingDir: dir, EntryPoints: []string{"m0.js"}, Bundle: true, Write: false, Outfile: "out.js",
+			Format: api.FormatESModule, TreeShaking: ts, LogLevel: api.LogLevelSilent})
+		if len(res.Errors) > 0 || len(res.OutputFiles) != 1 {
+			return
+		}
+		progs = append(progs, string(res.OutputFiles[0].Contents))
+	}
+	out, err := RunNodeScripts(progs, 8000)
+	if err != nil || len(out) != 2 {
+		return
+	}
+	st.Histogram["known-scenario-cjs-order"]++
+	if !out[0].Same(out[1]) && out[0].Err() == "" && out[1].Err() == "" {
+		st.Fail("known-ts-off-reorders-cjs-import", map[string]interface{}{"scenario": "known-ts-off-reorders-cjs-import", "files": files,
+			"options": "bundle format=esm, treeShaking true vs false"}, out[1].String(), out[0].String())
 	}
 }
